@@ -65,6 +65,32 @@ func vfC09(c *hx.Ctx) {
 		c.UnitBudget = left / time.Duration(max(per, 1))
 		c.Explore("wire/"+g.name+fmt.Sprintf("/mtu=%d", cf.Mtu), vfPairParams(cf, 0), 0, vfPairRun(cf, 0, body))
 	}
+	// the FEC id cycle across the wrap value, with and without an idle gap (skipped parity) in the groups around it
+	for _, fec := range [][2]int{{2, 1}, {3, 2}, {10, 3}} {
+		for back := 1; back <= 2; back++ {
+			for _, gap := range []int{0, 1, 2, 3} {
+				cf := vfPairCfg{DS: fec[0], PS: fec[1], SDS: -1, Stream: true, NoDelay: [4]int{1, 10, 2, 1}, Writes: []int{30, 31, 32, 33, 34, 35, 36, 37}, ReadBuf: 4096, Pool: vrt.PoolEager,
+					Preempt: 1, Switch: 1, Select: 1, Wire: true, Owners: []string{"C09:"}, K: 2, Fates: []int{vfDeliver, vfDrop}, EncBack: back, GapAfter: gap, GapMs: 650, HorizonS: 60}
+				if fec[0] == 10 {
+					for i := 0; i < 14; i++ {
+						cf.Writes = append(cf.Writes, 20+i)
+					}
+				}
+				body := func(p *vfPair) {
+					p.traffic()
+					if !p.failed() {
+						p.drainBacklog()
+					}
+					if want := vfExpected(0, cf.Writes); !bytes.Equal(p.wireC2S.stream(), want) {
+						p.bad("C09:wire-stream-differs", "the byte stream reassembled from the wire differs from what was written (FEC ids crossing the wrap value)")
+					}
+					p.teardown()
+				}
+				c.UnitBudget = 10 * time.Second
+				c.Explore(fmt.Sprintf("wire-wrap/fec=%d,%d/encoder-%d-groups-before-wrap/idle-gap-after-write-%d", fec[0], fec[1], back, gap), vfPairParams(cf, 0), 0, vfPairRun(cf, 0, body))
+			}
+		}
+	}
 	// nonce freshness of the real entropy source
 	if c.Shard == 0 && !c.Skip("entropy") {
 		start := time.Now()
